@@ -646,6 +646,12 @@ class LiteralT(Node):
                 # a bytes *datum* equal to the member is also "listed in Literal"
                 if type(d) is bytes and d == m:
                     hits.append(d)
+                elif not isinstance(d, str):
+                    try:
+                        if d == m:
+                            look = True     # bytearray(b'ab') == b'ab': an ==-look-alike of another type, the docs do not decide
+                    except Exception:  # noqa: BLE001
+                        pass
                 continue
             try:
                 eq = (d == m)
